@@ -444,6 +444,8 @@ def storage_prop(prop, tier, seed, mode, relevant, level_note, replay=None, mode
     cov["distinct_nontrivial"] = fam["n_histories"]
     cov["rule"] = ("seeded histories (flavours nocompact/compact/free + probes), each executed on the real engine; "
                    "every recorded event is judged by StorageTrace.tla; distinct = histories with distinct seeds")
+    if prop in SIDE_MODELS:
+        cov["design_models"] = run_side_models(prop, tier)
     vlib.write_evidence(prop, tier, seed, "model_checking", cov, time.time() - t0, nv,
                         ASSUME_COMMON + [level_note])
     return 1 if nv else 0
@@ -524,6 +526,29 @@ def c08(tier, seed, replay):
 def c28(tier, seed, replay):
     return storage_prop("C28", tier, seed, "vacuum", ["vacuum", "dump/vacuum"],
                         "vacuum of a cleanly closed database", replay)
+
+
+# small design-level models that accompany a trace-validation check: (module, config, expected outcome)
+# expected = "holds" or the name of the invariant the configuration must violate (sensitivity / known-finding reproduction)
+SIDE_MODELS = {
+    "C17": [("WalTail", "MC_WalTail", "holds"), ("WalTail", "MC_WalTailNeg_OffsetPastBadCrc", "NoJunkSurvivesOpen")],
+    "C15": [("Index", "MC_Index_Repaired", "holds"), ("Index", "MC_IndexKF_NoBackfill", "IndexTransparent"),
+            ("Index", "MC_IndexKF_FirstLabel", "IndexTransparent"), ("Index", "MC_IndexKF_NumberKinds", "IndexTransparent"),
+            ("Index", "MC_IndexKF_Pinned", "IndexTransparent")],
+    "C29": [("Backup", "MC_Backup", "holds"), ("Backup", "MC_BackupKF_CompactBetween", "BackupConsistent"),
+            ("Backup", "MC_BackupNeg_WalFirst", "BackupConsistent")],
+}
+
+
+def run_side_models(prop, tier):
+    out = {}
+    for spec, cfg, expect in SIDE_MODELS.get(prop, []):
+        r = model_run(spec, cfg, tier, "side-" + cfg, workers=4, timeout=1800, must_hold=(expect == "holds"))
+        if expect != "holds" and r.get("violated") != expect:
+            raise ToolError("%s/%s must violate %s, got %r" % (spec, cfg, expect, r.get("violated")))
+        out[cfg] = {"module": spec, "expected": expect, "states": r["states"],
+                    "outcome": "holds" if expect == "holds" else "violates " + expect + " (as it must)"}
+    return out
 
 
 def generic_verdict(prop, findings, payload_of):
